@@ -1,17 +1,19 @@
-use quote::quote_spanned;
-use syn::{spanned::Spanned, Type};
+use syn::{spanned::Spanned, Lifetime, Type};
 
-use crate::common::{r#type::dereference_changed, tools::HashType};
+use crate::common::tools::HashType;
 
+/// The lifetimes of references are unified to `'static` so that `&str` and `&'static str` refer to the same target. The levels of references and their mutability are kept.
 #[inline]
 pub(crate) fn to_hash_type(ty: &Type) -> HashType {
-    let (ty, is_ref) = dereference_changed(ty);
+    let mut ty = ty.clone();
 
-    let ty = if is_ref {
-        syn::parse2(quote_spanned!( ty.span() => &'static #ty )).unwrap()
-    } else {
-        ty.clone()
-    };
+    let mut current = &mut ty;
+
+    while let Type::Reference(reference) = current {
+        reference.lifetime = Some(Lifetime::new("'static", reference.and_token.span()));
+
+        current = reference.elem.as_mut();
+    }
 
     HashType::from(ty)
 }
